@@ -1,5 +1,6 @@
 (* C18 - zeroize() wipes every non-skipped field of the live variant only. *)
-From DW Require Import Proofs_simple Proofs_frontend Examples.
+From DW Require Import Proofs_simple Proofs_frontend Proofs_decl Examples.
+From Coq Require Import Permutation.
 
 (* For every accepted item deriving Zeroize and every value: exactly the fields of the live
    variant that are not skipped for Zeroize are zeroized, in declaration order, each through
@@ -37,6 +38,62 @@ Check C18_crate_path :
   forall (dt : derive_trait), dt_trait dt = Zeroize ->
     trait_path dt = path_from_root_and_strs (match dt_crate dt with Some p => p | None => path_from_strs ["zeroize"] end) ["Zeroize"].
 Print Assumptions C18_crate_path.
+
+(* Which fields go through the fully qualified function is read off the attributes AS WRITTEN: a field of an accepted item
+   has the fqs flag iff SOME option of SOME derive_where attribute on it is `Zeroize(.. fqs ..)` - wherever that option
+   stands among the field's options (before or after a `skip(..)`, in the first or a later attribute). *)
+Theorem C18_fqs_as_written :
+  forall (c : cfg) (r : raw_item) (i : input),
+    from_input c r = Ok i ->
+    (forall sh fs d, ri_kind r = KStruct sh fs -> in_item i = IItem d ->
+       sh = RUnit \/ Forall2 fqs_as_written fs (d_fields d)) /\
+    (forall rvs disc id inc vs, ri_kind r = KEnum rvs -> in_item i = IEnum disc id inc vs ->
+       Forall2 (fun rv d => rv_shape rv = RUnit \/ Forall2 fqs_as_written (rv_fields rv) (d_fields d)) rvs vs).
+Proof.
+  intros c r i H. split.
+  - intros sh fs d Hk Hi. eapply accepted_struct_fqs; eassumption.
+  - intros rvs disc id inc vs Hk Hi. eapply accepted_variants_fqs; eassumption.
+Qed.
+
+Check C18_fqs_as_written :
+  forall (c : cfg) (r : raw_item) (i : input),
+    from_input c r = Ok i ->
+    (forall sh fs d, ri_kind r = KStruct sh fs -> in_item i = IItem d ->
+       sh = RUnit \/ Forall2 fqs_as_written fs (d_fields d)) /\
+    (forall rvs disc id inc vs, ri_kind r = KEnum rvs -> in_item i = IEnum disc id inc vs ->
+       Forall2 (fun rv d => rv_shape rv = RUnit \/ Forall2 fqs_as_written (rv_fields rv) (d_fields d)) rvs vs).
+Print Assumptions C18_fqs_as_written.
+
+(* hence the order and grouping of a field's options never matter, neither for what it is skipped for nor for fqs *)
+Theorem C18_field_option_order_irrelevant :
+  forall (c : cfg) (dws : list dw) (parent : skip) (attrs attrs' : list field_attr) (st st' : skip * bool),
+    Permutation (metas_of attrs) (metas_of attrs') ->
+    field_attr_from_attrs c dws parent attrs = Ok st -> field_attr_from_attrs c dws parent attrs' = Ok st' ->
+    (forall t, trait_skipped (fst st) t = trait_skipped (fst st') t) /\ snd st = snd st'.
+Proof.
+  intros c dws parent attrs attrs' st st' HP H H'. split.
+  - intros t. rewrite (field_attrs_declarative _ _ _ _ _ H t), (field_attrs_declarative _ _ _ _ _ H' t). apply existsb_perm. exact HP.
+  - pose proof (field_fqs_declarative _ _ _ _ _ H) as A. pose proof (field_fqs_declarative _ _ _ _ _ H') as A'.
+    unfold ffqs_decl in A, A'. rewrite A, A'. apply existsb_perm. exact HP.
+Qed.
+
+Check C18_field_option_order_irrelevant :
+  forall (c : cfg) (dws : list dw) (parent : skip) (attrs attrs' : list field_attr) (st st' : skip * bool),
+    Permutation (metas_of attrs) (metas_of attrs') ->
+    field_attr_from_attrs c dws parent attrs = Ok st -> field_attr_from_attrs c dws parent attrs' = Ok st' ->
+    (forall t, trait_skipped (fst st) t = trait_skipped (fst st') t) /\ snd st = snd st'.
+Print Assumptions C18_field_option_order_irrelevant.
+
+(* non-vacuity of the order statement: `skip(Debug), Zeroize(fqs)` and `Zeroize(fqs), skip(Debug)` are both accepted and
+   give the same markers (fqs set, skipped for Debug only) *)
+Example C18_order_nonvacuous :
+  let sk := M1List (pid "skip") (Some [M2Path (pid "Debug")]) in
+  let fq := M1List (pid "Zeroize") (Some [M2Path (pid "fqs")]) in
+  let dws := [mkDw [mkDT Zeroize None; mkDT Debug None] [] ] in
+  field_attr_from_attrs cfg_zeroize dws SkipNone [FADw (SAList (Some [sk; fq]))] = Ok (SkipTraits [GDebug], true) /\
+  field_attr_from_attrs cfg_zeroize dws SkipNone [FADw (SAList (Some [fq; sk]))] = Ok (SkipTraits [GDebug], true) /\
+  field_attr_from_attrs cfg_zeroize dws SkipNone [FADw (SAList (Some [fq])); FADw (SAList (Some [sk]))] = Ok (SkipTraits [GDebug], true).
+Proof. vm_compute. repeat split; reflexivity. Qed.
 
 (* Non-vacuity: an enum with a field-less variant and a skipped field, under the zeroize feature. *)
 Definition ex_zeroize : raw_item :=
